@@ -479,3 +479,18 @@ Proof.
   unfold context_ok. rewrite !Bool.andb_true_iff, !in_range_spec.
   unfold MIN_OUTLEN, MIN_SALT_LENGTH, MAX_U32, MAX_LANES, MIN_MEMORY, MAX_MEMORY. repeat split; lia.
 Qed.
+
+(* ... and so has exactly the requested length: the length a stored record declares, which PwHash::verify compares with the
+   stored hash before anything else, is the length of every hash the crate computes for it *)
+Corollary crypto_pwhash_length (outlen : nat) pwd salt opslimit memlimit alg out :
+  Z.of_nat outlen < 4294967295 -> Z.of_nat (length pwd) <= MAX_U32 -> Z.of_nat (length salt) <= MAX_U32 ->
+  pwhash_params_ok outlen pwd salt opslimit memlimit -> alg = 1 \/ alg = 2 ->
+  7 * (memlimit / 1024 / 4) <= 2 ^ 32 ->
+  crypto_pwhash outlen pwd salt opslimit memlimit alg = Ok out -> length out = outlen.
+Proof.
+  intros Ho Hp Hs Hok Halg Hmax E.
+  rewrite (crypto_pwhash_is_rfc outlen pwd salt opslimit memlimit alg Ho Hp Hs Hok Halg Hmax) in E.
+  injection E as <-. unfold Argon2Spec.argon2. apply Hprime_length.
+  destruct Hok as (_ & _ & Hol & _). unfold MIN_OUTLEN in Hol. lia.
+Qed.
+
